@@ -64,7 +64,20 @@ func atoi(s string) int {
 	return n
 }
 
+var cfgCache = map[string]*cfg{}
+
+// parseCfg returns ONE object per distinct configuration text: compilations that are given the same
+// options in one process share the same switch / auto-var maps, as they would in a long-running caller.
 func parseCfg(h string) *cfg {
+	if c, ok := cfgCache[h]; ok {
+		return c
+	}
+	c := parseCfgFresh(h)
+	cfgCache[h] = c
+	return c
+}
+
+func parseCfgFresh(h string) *cfg {
 	c := &cfg{optimize: true, lm: true, switches: map[string]string{}, autovars: map[string]parser.AutoVarCommand{}}
 	c.fonts.Fonts = map[string]parser.Fonts{}
 	for _, line := range strings.Split(unhx(h), "\n") {
